@@ -93,6 +93,47 @@ Theorem C14_pad_reject :
 Proof. exact pad_reject. Qed.
 Print Assumptions C14_pad_reject.
 
+(* Altered ciphertexts.  Before the repair "fix: reject non-canonical RSA ciphertexts" rsaDecrypt
+   took any byte string, so c + k*N (while it fits 256 bytes) and 0x00||c were ALTERED ciphertexts
+   decrypting to the same plaintext under both schemes (the old witness is kept as a corpus case
+   of harness/cmd/c14: classes plus-modulus, zero-prefixed).  With the range check:
+   (a) anything that is not exactly 256 bytes with value below N is rejected by both decoders; *)
+Theorem C14_noncanonical_rejected :
+  forall sha256 sha1 aes_dec modexp N d c,
+    length c <> 256%nat \/ N <= be_dec c ->
+    decode_rsa_pad sha256 aes_dec modexp N d c = Err EInvalid /\
+    rsa_decrypt_hashed sha1 modexp N d c = Err EInvalid.
+Proof. exact noncanonical_rejected. Qed.
+Print Assumptions C14_noncanonical_rejected.
+
+(* (b) two different byte strings never decrypt to the same RSA plaintext block (rsa_key_pair_r:
+   encryption undoes decryption below N) -- for both schemes, since both go through rsa_decrypt; *)
+Theorem C14_rsa_decrypt_injective :
+  forall modexp N e d,
+    modexp_is_pow modexp N -> rsa_key_pair_r N e d -> 0 <= d -> 0 < N ->
+    forall c c' n blk blk', bytes_ok c -> bytes_ok c' -> c <> c' ->
+      rsa_decrypt modexp N d c n = Some blk -> rsa_decrypt modexp N d c' n = Some blk' -> blk <> blk'.
+Proof. exact rsa_decrypt_injective. Qed.
+Print Assumptions C14_rsa_decrypt_injective.
+
+(* (c) hence a ciphertext c' different from an accepted c is accepted by DecodeRSAPad only if it is
+   canonical and its own plaintext is a different well-formed RSA_PAD block. *)
+Theorem C14_pad_altered :
+  forall sha256 aes_enc aes_dec modexp N e d,
+    sha256_wf sha256 -> aes_wf aes_enc -> aes_inverse aes_enc aes_dec ->
+    aes_dec_wf aes_dec -> aes_inverse_r aes_enc aes_dec ->
+    modexp_is_pow modexp N -> rsa_key_pair_r N e d -> 0 <= d -> 0 < N ->
+    forall c c' x x', bytes_ok c -> bytes_ok c' -> c <> c' ->
+      decode_rsa_pad sha256 aes_dec modexp N d c = Ok x ->
+      decode_rsa_pad sha256 aes_dec modexp N d c' = Ok x' ->
+      exists tk tk' blk blk',
+        pad_key_aes_encrypted sha256 aes_enc tk x = Ok blk /\
+        pad_key_aes_encrypted sha256 aes_enc tk' x' = Ok blk' /\
+        rsa_decrypt modexp N d c 256 = Some blk /\ rsa_decrypt modexp N d c' 256 = Some blk' /\
+        blk <> blk' /\ length c' = 256%nat /\ be_dec c' < N.
+Proof. exact pad_altered. Qed.
+Print Assumptions C14_pad_altered.
+
 (* Legacy scheme: the encryption is SHA1(data) + data + random bytes (255 bytes) under RSA ... *)
 Theorem C14_hashed_is_spec :
   forall sha1 modexp N e,
@@ -173,7 +214,7 @@ Example C14_hypotheses_satisfiable :
   exists sha256 sha1 aes_enc aes_dec modexp N e d,
     sha256_wf sha256 /\ sha1_wf sha1 /\ aes_wf aes_enc /\ aes_inverse aes_enc aes_dec /\
     aes_dec_wf aes_dec /\ aes_inverse_r aes_enc aes_dec /\ modexp_is_pow modexp N /\
-    rsa_key_pair N e d /\ 256 ^ 255 <= N <= 256 ^ 256 /\ 0 < N.
+    rsa_key_pair N e d /\ 256 ^ 255 <= N <= 256 ^ 256 /\ 0 < N /\ rsa_key_pair_r N e d.
 Proof. exists nv_sha256, nv_sha1, nv_aes, nv_aes, modexp_sm, nv_N, 1, 1. exact nv_hyps. Qed.
 
 (* ... and the conclusions are reached: in that instance RSAPad accepts and the round trip runs *)
